@@ -31,8 +31,10 @@ order of the Go code; that order is the whole point:
                                                         finished
 
 The clients `GetByListener` returns come out of a Go map: the schedule also decides which of them the
-closer's loop visits next (`Ev.closerNext`).  `sync.WaitGroup` is a counter; `Wait` is enabled only when
-it is 0 (its documented meaning; the misuse panic of an `Add` racing a returning `Wait` is not modelled).  Fields marked *ghost* record history for
+closer's loop visits next (`Ev.closerNext`).  `sync.WaitGroup` is a counter with a waiter: `Wait` returns at
+once when the counter is 0, otherwise it registers and sleeps; the `Done` that reaches 0 releases it; the
+woken `Wait` panics if the counter is positive again (sync/waitgroup.go: "WaitGroup is reused before
+previous Wait has returned").  Fields marked *ghost* record history for
 the statements of the theorems and are never read by a step.
 -/
 namespace Mochi.Shutdown
@@ -69,7 +71,10 @@ inductive CPc where
   | disc (l : Nat) (todo : List Nat)
   | discStop (l : Nat) (c : Nat) (todo : List Nat)
   | closeNet (l : Nat)
-  | wgWait | hooksStop | returned
+  | wgWait      -- about to call `ClientsWg.Wait()`
+  | wgBlocked   -- inside `Wait`: registered as a waiter, asleep until the counter's last `Done` releases it
+  | hooksStop | returned
+  | panicked    -- `Wait` woke up and found the counter positive again: the runtime panics, the process dies
 deriving Repr, DecidableEq
 
 structure Sys where
@@ -79,6 +84,8 @@ structure Sys where
   ended : List Nat := []         -- listeners whose `end` flag is 1
   netClosed : List Nat := []     -- listeners whose net listener is closed
   wg : Nat := 0                  -- `ClientsWg` counter
+  waiting : Bool := false        -- `ClientsWg`: the closer is registered as a waiter
+  released : Bool := false       -- `ClientsWg`: the `Done` that brought the counter to 0 has released the waiter
   hooksStopped : Bool := false
   hs : List H := []
   snapshotted : List Nat := []   -- ghost: listeners whose clients the closer has enumerated
@@ -99,7 +106,7 @@ def snapshotOf (hs : List H) (l : Nat) : List Nat :=
 
 def discCode (ver : Nat) : Nat := if ver ≥ 5 then 0x8B else 0
 
-/-- one step of the closer (no move when `Wait` is not enabled, or after `return`) -/
+/-- one step of the closer (no move while asleep in `Wait`, after `return`, after the panic) -/
 def stepCloser (s : Sys) : Sys :=
   match s.cpc with
   | .closeDone => { s with done := true, cpc := .loop }
@@ -121,9 +128,20 @@ def stepCloser (s : Sys) : Sys :=
     | none => { s with cpc := .disc l todo }
     | some h => { s with hs := s.hs.set c { h with stopped := true }, cpc := .disc l todo }
   | .closeNet l => { s with netClosed := l :: s.netClosed, cpc := .loop }
-  | .wgWait => if s.wg == 0 then { s with waitPassed := true, cpc := .hooksStop } else s
+  | .wgWait =>
+    -- `Wait`: counter 0: return; otherwise register as a waiter and sleep
+    if s.wg == 0 then { s with waitPassed := true, cpc := .hooksStop }
+    else { s with waiting := true, cpc := .wgBlocked }
+  | .wgBlocked =>
+    -- woken by the releasing `Done`: `if wg.state.Load() != 0 { panic("sync: WaitGroup is reused before
+    -- previous Wait has returned") }`
+    if s.released then
+      if s.wg == 0 then { s with released := false, waitPassed := true, cpc := .hooksStop }
+      else { s with released := false, cpc := .panicked }
+    else s
   | .hooksStop => { s with hooksStopped := true, cpc := .returned }
   | .returned => s
+  | .panicked => s
 
 /-- one step of handler `i` (no move when blocked in its read loop, dropped or finished) -/
 def stepHandler (s : Sys) (i : Nat) : Sys :=
@@ -148,7 +166,12 @@ def stepHandler (s : Sys) (i : Nat) : Sys :=
       else { s with hs := s.hs.set i { h with pc := .teardown } }
     | .readLoop => if h.isOpen then s else { s with hs := s.hs.set i { h with pc := .teardown } }
     | .teardown => { s with hs := s.hs.set i { h with pc := .wgDone, stopped := true } }
-    | .wgDone => { s with wg := s.wg - 1, hs := s.hs.set i { h with pc := .finished } }
+    | .wgDone =>
+      -- `Done`: the decrement that reaches 0 while a waiter is registered clears the waiter count and
+      -- releases it; the waiter runs later
+      let rel := s.waiting && s.wg - 1 == 0
+      { s with wg := s.wg - 1, waiting := s.waiting && !rel, released := s.released || rel,
+               hs := s.hs.set i { h with pc := .finished } }
     | .finished => s
 
 /-- the peer closes connection `i` (nothing to close once the broker has closed it) -/
